@@ -113,6 +113,24 @@ func c07InstantiationPool() []c07Def {
 	}
 }
 
+// c07FieldAccessPool: definitions whose un-annotated parameter gets its type late (through a call) while a
+// FIELD of it already instantiates a generic union / record: Sf p.Name, {V=p.Id; ...}.  Until the parameter is
+// resolved the instantiation is "Of<typeof(p.Name)>"; tables kept per instantiation must tell such accesses
+// apart and must not survive into the next definition (genuine defect 15a89b4, seed C07f).
+func c07FieldAccessPool() []c07Def {
+	return []c07Def{
+		/*0*/ {name: "Pf", src: "type Pf = {Id: int; Name: string}\n", owns: exact("Pf"), declOnly: true},
+		/*1*/ {name: "Of", src: "type Of<T> =\n  | Sf of T\n  | Nf\n", owns: prefixOwner("Of"), declOnly: true},
+		/*2*/ {name: "Bf", src: "type Bf<T> = {V: T; N: int}\n", owns: exact("Bf"), declOnly: true},
+		/*3*/ {name: "showPf", src: "let showPf (p: Pf) =\n  p.Name\n", deps: []int{0}, owns: exact("showPf")},
+		/*4*/ {name: "pairUpf", src: "let pairUpf a b =\n  (Sf a, Sf b)\n", deps: []int{1}, owns: exact("pairUpf")},
+		/*5*/ {name: "nameOptf", src: "let nameOptf p =\n  let o = Sf p.Name\n  let s = showPf p\n  match o with\n  | Sf v -> v + s\n  | Nf -> s\n", deps: []int{0, 1, 3}, owns: exact("nameOptf")},
+		/*6*/ {name: "idOptf", src: "let idOptf p =\n  let r = pairUpf 1 p.Id\n  let (_, y) = r\n  let s = showPf p\n  match y with\n  | Sf v -> v\n  | Nf -> 0\n", deps: []int{0, 1, 3, 4}, owns: exact("idOptf")},
+		/*7*/ {name: "nameBoxf", src: "let nameBoxf p =\n  let b = {V=p.Name; N=1}\n  let s = showPf p\n  b.V + s\n", deps: []int{0, 2, 3}, owns: exact("nameBoxf")},
+		/*8*/ {name: "idBoxf", src: "let idBoxf p =\n  let b = {V=p.Id; N=2}\n  let s = showPf p\n  b.V\n", deps: []int{0, 2, 3}, owns: exact("idBoxf")},
+	}
+}
+
 func c07Pool(thorough bool) []c07Def {
 	pool := []c07Def{
 		/*0*/ {name: "R", src: "type R = {A: int; B: string}\n", owns: exact("R"), declOnly: true},
@@ -139,6 +157,10 @@ func c07Pool(thorough bool) []c07Def {
 			/*17*/ c07Def{name: "usegv", src: "let usegv () =\n  (gv, [gv])\n", deps: []int{3}, owns: exact("usegv")},
 			/*18*/ c07Def{name: "tvl", src: "let tvl = fun (gv:string) (idf:string) -> gv + idf\n", owns: exact("tvl")},
 			/*19*/ c07Def{name: "shadow1", src: "let shadow1 (idf:int) (mk:int) =\n  let gv = idf + mk\n  gv * 2\n", owns: exact("shadow1")},
+			// a package_info block whose external types have the SHORT NAMES of the user's own R and U (they live in
+			// another namespace: ext2.R, ext2.U) - unrelated to every definition that means the user's types
+			/*20*/
+			c07Def{name: "PIsame", src: "package_info ext2 =\n  type R\n  type U\n  type G<T>\n  let MkR: ()->R\n  let UseU: U->int\n", owns: func(string) bool { return false }, declOnly: true, noOutput: true},
 			/*15*/ c07Def{name: "mkgs", src: "let mkgs (s:string) =\n  let g = {V=s; Vs=[s; s]}\n  g.Vs\n", deps: []int{10}, owns: exact("mkgs")},
 		)
 	}
@@ -369,6 +391,9 @@ func checkC07(c *core.Ctx) {
 		c07ExplorePool(c, sc, fc, av, [][2]int{{len(av), maxFiles}})
 	}
 	c.Set("ambiguity_pool_field_order_variants", len(c07AmbiguityVariants()))
+	fa := c07FieldAccessPool()
+	c.Set("field_access_pool_size", len(fa))
+	c07ExplorePool(c, sc, fc, fa, [][2]int{{6, maxFiles}})
 	inst := c07InstantiationPool()
 	c.Set("instantiation_pool_size", len(inst))
 	c07ExplorePool(c, sc, fc, inst, [][2]int{{5, maxFiles}})
